@@ -3,9 +3,14 @@ package props
 import (
 	"bytes"
 	"fmt"
+	"io"
+	"net/http"
 	nurl "net/url"
+	"os"
+	"path/filepath"
 	"strconv"
 	"strings"
+	"time"
 
 	distiller "github.com/markusmobius/go-domdistiller"
 	"golang.org/x/net/html"
@@ -391,6 +396,14 @@ func c01Enumerate(tier string, emit func(*eng.Case)) {
 			emit(&eng.Case{Kind: "title", P: map[string]string{"title": title, "h1": h1, "doc": fmt.Sprintf("<title>%s</title> h1=%s", title, h1)}})
 		}
 	})
+	// 8: the file and URL entry points, including their failure paths
+	for _, body := range []string{"", "<p>x</p>", "<html><body><p>" + c01Long + "</p></body></html>", "\x00\x01\x02", "<title>"} {
+		for _, mode := range []string{"file-ok", "file-missing", "file-dir", "url-ok", "url-not-html", "url-no-content-type", "url-transport-error", "url-bad-url", "url-relative", "url-empty-body-204"} {
+			for _, nilOpts := range []bool{true, false} {
+				emit(&eng.Case{Kind: "io", HTML: body, Nil: nilOpts, Flags: 30, P: map[string]string{"mode": mode, "doc": fmt.Sprintf("%s body=%q nil-options=%v", mode, body, nilOpts)}})
+			}
+		}
+	}
 	// 5: byte strings for ApplyForReader
 	all := make([]int, len(c01Bytes))
 	for i := range all {
@@ -418,6 +431,26 @@ func c01Enumerate(tier string, emit func(*eng.Case)) {
 
 // ---- execution -------------------------------------------------------------------------------
 
+type ioTransport struct{ mode, body string }
+
+func (t *ioTransport) RoundTrip(r *http.Request) (*http.Response, error) {
+	if t.mode == "url-transport-error" {
+		return nil, fmt.Errorf("stub: connection refused")
+	}
+	h := http.Header{"Content-Type": []string{"text/html; charset=utf-8"}}
+	status := 200
+	switch t.mode {
+	case "url-not-html":
+		h = http.Header{"Content-Type": []string{"application/pdf"}}
+	case "url-no-content-type":
+		h = http.Header{}
+	case "url-empty-body-204":
+		status = 204
+	}
+	return &http.Response{StatusCode: status, Status: fmt.Sprint(status), Proto: "HTTP/1.1", ProtoMajor: 1, ProtoMinor: 1, Header: h,
+		Body: io.NopCloser(strings.NewReader(t.body)), Request: r, ContentLength: int64(len(t.body))}, nil
+}
+
 func c01Opts(c *eng.Case) *distiller.Options {
 	if c.Nil {
 		return nil
@@ -444,6 +477,37 @@ func c01Check(c *eng.Case) *eng.Outcome {
 	case "pager":
 		doc := ora.Parse(c.HTML)
 		pi = eng.Protect(func() { res, err = distiller.Apply(doc, c01Opts(c)) })
+	case "io":
+		mode := c.Get("mode")
+		switch {
+		case strings.HasPrefix(mode, "file"):
+			dir, derr := os.MkdirTemp("", "c01io-")
+			if derr != nil {
+				o.Skipped = "tempdir"
+				return o
+			}
+			defer os.RemoveAll(dir)
+			path := filepath.Join(dir, "in.html")
+			switch mode {
+			case "file-ok":
+				os.WriteFile(path, []byte(c.HTML), 0o644)
+			case "file-dir":
+				path = dir
+			}
+			pi = eng.Protect(func() { res, err = distiller.ApplyForFile(path, c01Opts(c)) })
+		default:
+			old := http.DefaultTransport
+			http.DefaultTransport = &ioTransport{mode: mode, body: c.HTML}
+			u := "http://example.com/a/2"
+			switch mode {
+			case "url-bad-url":
+				u = "http://exa mple.com/%zz"
+			case "url-relative":
+				u = "a/2"
+			}
+			pi = eng.Protect(func() { res, err = distiller.ApplyForURL(u, 2*time.Second, c01Opts(c)) })
+			http.DefaultTransport = old
+		}
 	case "title":
 		t := &ora.Tok{}
 		h1 := ""
@@ -530,7 +594,7 @@ func init() {
 		DesignRef: "§5 C01",
 		Rule: "five sub-spaces, each complete to its bound. (1) all ordered trees of hand-built nodes with <= 3 (quick) / <= 4 (thorough) nodes over 33 labels and of 4 / 5 nodes over 12 core labels, x every node as root attached (inside document>html>body) and detached, plus the document node and a bare document; " +
 			"(2) every tree of <= 2 / <= 3 nodes x every node x 11 field mutations (empty Data, upper-case tag, zero/wrong DataAtom, svg namespace, empty Attr slice, duplicate/empty attribute keys, Error/Doctype/Raw node types); (3) trees of <= 2 nodes x nil options and 16 URLs (IPv6, userinfo, non-ASCII host, mailto, relative, placeholder literal, escaped slash, ...) x log-flag sets x SkipPagination x algorithm; " +
-			"(4) a pager whose hrefs are scheme x host x path x query x fragment pieces with <= 2 pieces off default (quick) / full product (thorough) x 14 page URLs (case-folding hosts, placeholder literals, escapes) x both algorithms; (6) every element of the rich host document of C05 (all rendering paths) x 11 taints (hidden, display:none, children removed, aria-hidden, attributes removed, class=sidebar, display:block, contenteditable, class/id values matching both word lists of the link scorers), without URL and with URL under each pagination algorithm, singles and pairs (quick: pairs over the first 3 taints); (7) every <title> of <= 3 (quick) / <= 4 (thorough) tokens over 29 word/separator tokens (ASCII and full-width colon, dashes, pipes, guillemets, slashes, NBSP, punctuation), with and without an equal h1; (5) all ApplyForReader inputs of <= 3 / <= 4 tokens over 32 byte tokens and 4 / 5 over 12 core tokens, with and without URL. " +
+			"(4) a pager whose hrefs are scheme x host x path x query x fragment pieces with <= 2 pieces off default (quick) / full product (thorough) x 14 page URLs (case-folding hosts, placeholder literals, escapes) x both algorithms; (6) every element of the rich host document of C05 (all rendering paths) x 11 taints (hidden, display:none, children removed, aria-hidden, attributes removed, class=sidebar, display:block, contenteditable, class/id values matching both word lists of the link scorers), without URL and with URL under each pagination algorithm, singles and pairs (quick: pairs over the first 3 taints); (8) ApplyForFile on an existing/missing/directory path and ApplyForURL through a stub transport (HTML, non-HTML, missing content type, transport error, malformed and relative URL, 204) x 5 bodies x nil/non-nil options; (7) every <title> of <= 3 (quick) / <= 4 (thorough) tokens over 29 word/separator tokens (ASCII and full-width colon, dashes, pipes, guillemets, slashes, NBSP, punctuation), with and without an equal h1; (5) all ApplyForReader inputs of <= 3 / <= 4 tokens over 32 byte tokens and 4 / 5 over 12 core tokens, with and without URL. " +
 			"Oracle: no panic, step budget (2e7 hook events) not exceeded, worker process survives, and the call returns an error or a result whose Node is a div element. Non-trivial = anything but a plain document root with default options.",
 		Enumerate:        c01Enumerate,
 		Check:            c01Check,
